@@ -41,6 +41,7 @@ type xref struct {
 	target  *xnode
 	created int
 	use     string // field logged by a use: "id" or "tag"
+	useFmt  string // if set: the logged expression, with %[1]s = the reference, %[2]d = the expected value
 }
 
 type xg struct {
@@ -103,6 +104,13 @@ func (g *xg) formList() []string {
 }
 
 // finish emits the uses (all valid references, then at most one stale one) and the clean-up.
+func (rf *xref) useExpr() string {
+	if rf.useFmt != "" {
+		return fmt.Sprintf(rf.useFmt, rf.name, rf.target.tag)
+	}
+	return rf.name + "." + rf.use
+}
+
 func (g *xg) finish(staleChance int) *RefProg {
 	g.w(`log("=use")`)
 	var tags []int
@@ -110,7 +118,7 @@ func (g *xg) finish(staleChance int) *RefProg {
 	for _, rf := range g.refs {
 		if rf.valid() {
 			tags = append(tags, rf.target.tag)
-			g.w("log(%s.%s)", rf.name, rf.use)
+			g.w("log(%s)", rf.useExpr())
 		} else {
 			invalid = append(invalid, rf)
 		}
@@ -120,7 +128,7 @@ func (g *xg) finish(staleChance int) *RefProg {
 	for _, rf := range g.lates {
 		if rf.valid() {
 			tags = append(tags, rf.target.tag)
-			g.w("log(%s.%s)", rf.name, rf.use)
+			g.w("log(%s)", rf.useExpr())
 		} else {
 			invalid = append(invalid, rf)
 		}
@@ -130,7 +138,7 @@ func (g *xg) finish(staleChance int) *RefProg {
 		rf := invalid[g.r.Intn(len(invalid))]
 		expect = "invalidated"
 		g.form("use-stale")
-		g.w("log(%s.%s)", rf.name, rf.use)
+		g.w("log(%s)", rf.useExpr())
 	}
 	g.w(`log("=end")`)
 	for _, c := range g.owned {
@@ -244,7 +252,13 @@ func (s *attState) takeRefs(k int) {
 				fa := g.tmp("fa")
 				g.w("var %s: [&AnyResourceAttachment] = []", fa)
 				g.w("%s.forEachAttachment(fun (a: &AnyResourceAttachment) { %s.append(a) })", s.base(), fa)
-				g.addRef(fmt.Sprintf("%s[0] as! &A", fa), s.nA, "id", "att-foreach")
+				if g.r.Bool() {
+					g.addRef(fmt.Sprintf("%s[0] as! &A", fa), s.nA, "id", "att-foreach")
+				} else {
+					// used as handed out by the iteration (a cast makes a new reference value)
+					rf := g.addRef(fa+"[0]", s.nA, "id", "att-foreach-uncast")
+					rf.useFmt = "%[1]s.getType().identifier.length > 0 ? %[2]d : -1"
+				}
 			}
 		}
 	}
